@@ -141,6 +141,23 @@ void alpha(const BaseGraph::UndirectedWeightedGraph &g, Abs &a, Cells<T> &st) {
     a.totalWeight = (bg_real)(long)g.totalWeight;
 }
 
+// ---- alpha for vector<size_t> / AdjacencyMatrix results: the entries at the observation points
+inline bg_vec_sz abs_vec(const std::vector<size_t> &v) {
+    bg_vec_sz r;
+    r.n = v.size();
+    r.vP = G_P < v.size() ? v[G_P] : 0;
+    r.vQ = G_Q < v.size() ? v[G_Q] : 0;
+    return r;
+}
+inline bg_mat_sz abs_vec(const std::vector<std::vector<size_t>> &m) {
+    bg_mat_sz r;
+    r.n = m.size();
+    r.m = m.empty() ? 0 : m[0].size();
+    r.rowP = G_P < m.size() ? abs_vec(m[G_P]) : bg_vec_sz{r.m, 0, 0};
+    r.rowQ = G_Q < m.size() ? abs_vec(m[G_Q]) : bg_vec_sz{r.m, 0, 0};
+    return r;
+}
+
 // ---- enumeration of small concrete graphs through the public API
 template <class L> L mk_label(int k);
 template <> inline VLabel mk_label<VLabel>(int k) { return VLabel{k}; }
